@@ -23,7 +23,7 @@ def cases(tier, rng):
             for c in range(chunks):
                 yield {"graph": g["graph"], "k": g["k"], "gseed": 0, "all_len": L, "chunk": c, "chunks": chunks, "nt": True}
     for g in graph_cases(tier, rng):
-        for rep in range(2 if tier == "quick" else 10):
+        for rep in range(6 if tier == "quick" else 12):
             c = dict(g)
             c.update({"mseed": rng.getrandbits(32), "nt": True})
             yield c
